@@ -35,14 +35,82 @@ SchemaPayloads1T == [
   \* KMIP 1.3 adds Correlation Value (no constructor argument: left out)
   SignResponsePayload |-> <<
       Req("unique_identifier", "UNIQUE_IDENTIFIER", "text"),
-      Req("signature_data", "SIGNATURE_DATA", "bytes") >>
+      Req("signature_data", "SIGNATURE_DATA", "bytes") >>,
+  \* Signature Data is required by KMIP 1.2 and optional from 1.3 on (multi-part operations)
+  SignatureVerifyRequestPayload |-> <<
+      Opt("unique_identifier", "UNIQUE_IDENTIFIER", "text"),
+      OptS("cryptographic_parameters", "CRYPTOGRAPHIC_PARAMETERS", "CryptographicParameters"),
+      Opt("data", "DATA", "bytes"),
+      Opt("digested_data", "DIGESTED_DATA", "bytes"),
+      Until(Req("signature_data", "SIGNATURE_DATA", "bytes"), 12),
+      Since(Opt("signature_data", "SIGNATURE_DATA", "bytes"), 13),
+      Since(Opt("correlation_value", "CORRELATION_VALUE", "bytes"), 13),
+      Since(Opt("init_indicator", "INIT_INDICATOR", "bool"), 13),
+      Since(Opt("final_indicator", "FINAL_INDICATOR", "bool"), 13) >>,
+  SignatureVerifyResponsePayload |-> <<
+      Req("unique_identifier", "UNIQUE_IDENTIFIER", "text"),
+      ReqE("validity_indicator", "VALIDITY_INDICATOR", "ValidityIndicator"),
+      Opt("data", "DATA", "bytes"),
+      Since(Opt("correlation_value", "CORRELATION_VALUE", "bytes"), 13) >>,
+  \* KMIP 1.3 adds Correlation Value, Init Indicator, Final Indicator to the MAC request and Correlation Value to the
+  \* response (Data / MAC Data then being required for single-part operations only); no constructor arguments: left out
+  MACRequestPayload |-> <<
+      Opt("unique_identifier", "UNIQUE_IDENTIFIER", "text"),
+      OptS("cryptographic_parameters", "CRYPTOGRAPHIC_PARAMETERS", "CryptographicParameters"),
+      Req("data", "DATA", "bytes") >>,
+  MACResponsePayload |-> <<
+      Req("unique_identifier", "UNIQUE_IDENTIFIER", "text"),
+      Req("mac_data", "MAC_DATA", "bytes") >>,
+  \* Unique Identifier "Yes, MAY be repeated"; under 2.0 the Template Attribute is an Attributes structure (kind tmpl)
+  DeriveKeyRequestPayload |-> <<
+      ReqE("object_type", "OBJECT_TYPE", "ObjectType"),
+      Some("unique_identifiers", "UNIQUE_IDENTIFIER", "text"),
+      ReqE("derivation_method", "DERIVATION_METHOD", "DerivationMethod"),
+      ReqS("derivation_parameters", "DERIVATION_PARAMETERS", "DerivationParameters"),
+      F("template_attribute", "TEMPLATE_ATTRIBUTE", "tmpl", "", "1", 10, 20) >>,
+  \* the 2.0 response carries the Unique Identifier only
+  DeriveKeyResponsePayload |-> <<
+      Req("unique_identifier", "UNIQUE_IDENTIFIER", "text"),
+      F("template_attribute", "TEMPLATE_ATTRIBUTE", "tmpl", "", "?", 10, 14) >>,
+  \* 2.0: the Template Attribute is an Attributes structure; 2.0 also adds Protection Storage Masks (no constructor
+  \* argument: left out)
+  RekeyRequestPayload |-> <<
+      Opt("unique_identifier", "UNIQUE_IDENTIFIER", "text"),
+      Opt("offset", "OFFSET", "interval"),
+      F("template_attribute", "TEMPLATE_ATTRIBUTE", "tmpl", "", "?", 10, 20) >>,
+  \* the 2.0 response carries the Unique Identifier only
+  RekeyResponsePayload |-> <<
+      Req("unique_identifier", "UNIQUE_IDENTIFIER", "text"),
+      F("template_attribute", "TEMPLATE_ATTRIBUTE", "tmpl", "", "?", 10, 14) >>,
+  \* Re-key Key Pair exists since KMIP 1.1.  2.0: Common / Private Key / Public Key Attributes structures; 2.0 also adds
+  \* the Protection Storage Masks (no constructor arguments: left out)
+  RekeyKeyPairRequestPayload |-> <<
+      Opt("private_key_uuid", "PRIVATE_KEY_UNIQUE_IDENTIFIER", "text"),
+      Opt("offset", "OFFSET", "interval"),
+      F("common_template_attribute", "COMMON_TEMPLATE_ATTRIBUTE", "tmpl", "", "?", 10, 20),
+      F("private_key_template_attribute", "PRIVATE_KEY_TEMPLATE_ATTRIBUTE", "tmpl", "", "?", 10, 20),
+      F("public_key_template_attribute", "PUBLIC_KEY_TEMPLATE_ATTRIBUTE", "tmpl", "", "?", 10, 20) >>,
+  \* the 2.0 response carries the two Unique Identifiers only
+  RekeyKeyPairResponsePayload |-> <<
+      Req("private_key_unique_identifier", "PRIVATE_KEY_UNIQUE_IDENTIFIER", "text"),
+      Req("public_key_unique_identifier", "PUBLIC_KEY_UNIQUE_IDENTIFIER", "text"),
+      F("private_key_template_attribute", "PRIVATE_KEY_TEMPLATE_ATTRIBUTE", "tmpl", "", "?", 10, 14),
+      F("public_key_template_attribute", "PUBLIC_KEY_TEMPLATE_ATTRIBUTE", "tmpl", "", "?", 10, 14) >>
 ]
 ClassTagPayloads1 == [
   EncryptRequestPayload |-> "REQUEST_PAYLOAD", EncryptResponsePayload |-> "RESPONSE_PAYLOAD",
   DecryptRequestPayload |-> "REQUEST_PAYLOAD", DecryptResponsePayload |-> "RESPONSE_PAYLOAD",
-  SignRequestPayload |-> "REQUEST_PAYLOAD", SignResponsePayload |-> "RESPONSE_PAYLOAD" ]
+  SignRequestPayload |-> "REQUEST_PAYLOAD", SignResponsePayload |-> "RESPONSE_PAYLOAD",
+  SignatureVerifyRequestPayload |-> "REQUEST_PAYLOAD", SignatureVerifyResponsePayload |-> "RESPONSE_PAYLOAD",
+  MACRequestPayload |-> "REQUEST_PAYLOAD", MACResponsePayload |-> "RESPONSE_PAYLOAD",
+  DeriveKeyRequestPayload |-> "REQUEST_PAYLOAD", DeriveKeyResponsePayload |-> "RESPONSE_PAYLOAD",
+  RekeyRequestPayload |-> "REQUEST_PAYLOAD", RekeyResponsePayload |-> "RESPONSE_PAYLOAD",
+  RekeyKeyPairRequestPayload |-> "REQUEST_PAYLOAD", RekeyKeyPairResponsePayload |-> "RESPONSE_PAYLOAD" ]
 ClassSincePayloads1 == [
   EncryptRequestPayload |-> <<12, 20>>, EncryptResponsePayload |-> <<12, 20>>,
   DecryptRequestPayload |-> <<12, 20>>, DecryptResponsePayload |-> <<12, 20>>,
-  SignRequestPayload |-> <<12, 20>>, SignResponsePayload |-> <<12, 20>> ]
+  SignRequestPayload |-> <<12, 20>>, SignResponsePayload |-> <<12, 20>>,
+  SignatureVerifyRequestPayload |-> <<12, 20>>, SignatureVerifyResponsePayload |-> <<12, 20>>,
+  MACRequestPayload |-> <<12, 20>>, MACResponsePayload |-> <<12, 20>>,
+  RekeyKeyPairRequestPayload |-> <<11, 20>>, RekeyKeyPairResponsePayload |-> <<11, 20>> ]
 =============================================================================
